@@ -110,7 +110,8 @@ type ex6State struct {
 	xidSol, xidReq uint32
 	forced         bool // the harness chooses the transaction ids (else: the library's own random ones)
 	xnames         map[uint32]string
-	trig           map[int]int // server handler task -> type of the client message it is answering
+	trig           map[int]int              // server handler task -> type of the client message it is answering
+	sentTypes      map[uint32]map[byte]bool // transaction id -> message types the client really sent with it
 
 	cconn   *Conn
 	servers []*ex6Server
@@ -174,8 +175,9 @@ func (st *ex6State) start() {
 	st.forced = t.Coin(1, 2)
 	st.xnames = map[uint32]string{}
 	st.trig = map[int]int{}
+	st.sentTypes = map[uint32]map[byte]bool{}
 	st.xidSol = 0x5a0000 | uint32(t.Choose(4))
-	st.xidReq = 0x5b0000 | uint32(t.Choose(4))
+	st.xidReq = 0xa50000 | uint32(t.Choose(4))
 	if t.Coin(1, 10) {
 		st.xidReq = st.xidSol // a client that reuses its id across message types
 	}
@@ -311,6 +313,12 @@ func (st *ex6State) clientTx(b []byte) {
 	s, t := st.s, st.tape
 	tx := &ex6Tx{t: s.Now(), raw: b}
 	tx.p, tx.ok = parseMsg6(b)
+	if tx.ok {
+		if st.sentTypes[tx.p.xid] == nil {
+			st.sentTypes[tx.p.xid] = map[byte]bool{}
+		}
+		st.sentTypes[tx.p.xid][tx.p.typ] = true
+	}
 	tx.seq = s.Ev("tx", -1, int64(tx.p.typ), "xid="+st.xn(tx.p.xid), nil)
 	if st.cur != nil {
 		st.cur.txs = append(st.cur.txs, tx)
@@ -371,7 +379,13 @@ func (st *ex6State) handler(sv *ex6Server) server6.Handler {
 			return
 		}
 		s.Ev("server.rx", sv.id, int64(m.MessageType), "xid="+st.xn(xidOf6(m)), nil)
-		st.trig[s.CurTask()] = int(m.MessageType)
+		// What the server is answering, as far as the oracle may rely on it: only if the
+		// client really sent a message of this type with this id (the network may have
+		// flipped the type byte or the id on the way to the server).
+		st.trig[s.CurTask()] = 0
+		if st.sentTypes[xidOf6(m)][byte(m.MessageType)] {
+			st.trig[s.CurTask()] = int(m.MessageType)
+		}
 		if m.MessageType != dhcpv6.MessageTypeSolicit && m.MessageType != dhcpv6.MessageTypeRequest {
 			return
 		}
@@ -502,9 +516,10 @@ func (st *ex6State) checkPairing(v *vio, o *ex6Op, name string, got *dhcpv6.Mess
 		v.add("Y-provenance", "%s: the returned %s is not the decoding of a datagram delivered during the call", name, got.MessageType)
 		return
 	}
-	if reqPhase && src.trig == int(dhcpv6.MessageTypeSolicit) && !(st.forced && st.xidReq == st.xidSol) {
-		// Unless the harness itself made the two ids equal, an answer to the SOLICIT
-		// can only bear the REQUEST's id if the client reused the SOLICIT's id.
+	if reqPhase && src.trig == int(dhcpv6.MessageTypeSolicit) && !src.corrupt && !(st.forced && st.xidReq == st.xidSol) {
+		// Unless the harness itself made the two ids equal (or the network flipped a bit
+		// of the id), an answer to the SOLICIT can only bear the REQUEST's id if the
+		// client reused the SOLICIT's id.
 		v.add("Y-mispaired", "%s: the REQUEST was completed by a server's answer to the SOLICIT (a %s delivered at #%d): REQUEST and SOLICIT share transaction id %s", name, got.MessageType, src.seq, st.xn(solXid))
 	}
 	tx := lastTxBefore6(txs, before)
